@@ -186,6 +186,9 @@ func newSorts(keyMode bool) *Sorts {
 		"(declare-fun fieldloc (Int Int) Int)",
 		"(declare-fun strcat (Int Int) Int)",
 		"(declare-fun errcause (Iface) Iface)",
+		"(declare-fun errIs (Iface Iface) Bool)",
+		"(assert (forall ((e Iface) (t Iface)) (! (=> (and (= (i_tag e) 0) (not (= (i_tag t) 0))) (not (errIs e t))) :pattern ((errIs e t))))) ;bg",
+		"(assert (forall ((e Iface)) (! (errIs e e) :pattern ((errIs e e))))) ;bg",
 		"(declare-fun bytes2str ((Array Int Int) Int Int) Int)",
 		"(assert (forall ((a Int) (i Int)) (! (and (= (elem_arr (elemref a i)) a) (= (elem_idx (elemref a i)) i) (< (elemref a i) 0) (= (refkind (elemref a i)) 1) (= (refbase (elemref a i)) (refbase a))) :pattern ((elemref a i))))) ;bg",
 		"(define-fun tdiv ((x Int) (y Int)) Int (ite (>= x 0) (ite (> y 0) (div x y) (- (div x (- y)))) (ite (> y 0) (- (div (- x) y)) (div (- x) (- y)))))",
